@@ -80,7 +80,7 @@ def install():
 def plan(tier, seed):
     n = 80 if tier == 'quick' else 10000
     kinds = ['multiband_shipped', 'multiband_gen', 'mixed', 'narrow', 'align', 'align', 'multiband_gen', 'narrow',
-             'p2p', 'chassis']
+             'p2p', 'chassis', 'offgrid', 'align']
     return [{'idx': i, 'kind': kinds[i % len(kinds)]} for i in range(n)]
 
 
@@ -153,6 +153,29 @@ def build_mixed(rng):
             cx.remove(c)
             cx.append({'from_node': a, 'to_node': uid})
             cx.append({'from_node': uid, 'to_node': b})
+    network = G.make_network(tj, equipment)
+    SimParams.set_params({})
+    G.design(equipment, network)
+    return {'ej': ej, 'tj': tj, 'equipment': equipment, 'network': network}
+
+
+def build_offgrid(rng):
+    """Single-band mesh in which user-placed amplifiers are models whose band edges are not multiples of 6.25 GHz from
+    193.1 THz, with edges on either side of that anchor frequency."""
+    ej = G.eqpt_json()
+    names = []
+    for k in range(rng.randint(2, 4)):
+        lo = G.pick(rng, [191.2775e12, 191.31e12, 191.3031e12, 192.4019e12, 193.1031e12, 193.3044e12, 191.275e12])
+        hi = G.pick(rng, [196.0535e12, 195.9977e12, 196.1219e12, 194.0519e12, 193.0519e12, 192.9981e12, 196.125e12])
+        if hi - lo < 0.6e12:
+            continue
+        names.append(f'vf_offgrid_{k}')
+        ej['Edfa'].append({'type_variety': names[-1], 'type_def': 'variable_gain', 'f_min': lo, 'f_max': hi,
+                           'gain_flatmax': 26, 'gain_min': 15, 'p_max': 23, 'nf_min': 6, 'nf_max': 10,
+                           'out_voa_auto': False, 'allowed_for_design': False})
+    equipment = G.make_equipment(ej)
+    tj, tdesc = G.gen_topology(rng, max_sites=4, max_spans=3, fused=True,
+                               amp_varieties=names + ['std_medium_gain', 'std_low_gain'])
     network = G.make_network(tj, equipment)
     SimParams.set_params({})
     G.design(equipment, network)
@@ -235,8 +258,10 @@ def check_oms_list(ctx, network, equipment, oms_list, tag):
         ctx.count('band_marking_checks')
         for n, v in zip(b.freq_index, b.bitmap):
             f = nvalue_to_frequency(n)
-            inside = any(f >= lo + GRID and f <= hi - GRID for lo, hi in bands)
-            outside = all(f < lo - GRID or f > hi + GRID for lo, hi in bands)
+            # slot n stands for the centre frequency f_n (the convention of the map: "f_min is the min central
+            # frequency"): usable exactly when f_n lies in a common band, edges included (1 kHz for float noise)
+            inside = any(f >= lo - 1e3 and f <= hi + 1e3 for lo, hi in bands)
+            outside = all(f < lo - 1e3 or f > hi + 1e3 for lo, hi in bands)
             if inside and v != FREE:
                 ctx.violation('band-marking', f'{tag}: OMS {o.oms_id} ({o.el_id_list[1]}..): slot n={n} '
                               f'({f * 1e-12:.5f} THz) lies inside the common band {bands} but is marked {v}')
@@ -270,6 +295,12 @@ def run_network(case, ctx):
     elif kind in ('p2p', 'chassis'):
         scen = build_trx_lines(rng, kind)
         ctx.count('networks_with_lines_ending_on_a_transceiver')
+    elif kind == 'offgrid':
+        try:
+            scen = build_offgrid(rng)
+        except (NetworkTopologyError, ConfigurationError) as e:
+            ctx.reject(f'{type(e).__name__}: {str(e)[:120]}')
+            return
     else:
         scen = build_narrow(rng)
     SimParams.set_params({})
@@ -310,9 +341,21 @@ def run_align(case, ctx):
     for _ in range(4):
         k = rng.randint(2, 8)
         oms_list, before = [], []
+        shape = G.pick(rng, ['any', 'any', 'same-width-shifted', 'some-identical', 'nested'])
+        width = rng.randint(40, 160)
+        first = None
         for i in range(k):
             f_min = 193.1e12 + rng.randint(-80, 10) * 12.5e9
             f_max = 193.1e12 + rng.randint(20, 120) * 12.5e9
+            if shape == 'same-width-shifted':
+                # windows of one width at different places (same number of slots, different extents)
+                f_max = f_min + width * 12.5e9
+            elif shape == 'some-identical' and first is not None and rng.random() < 0.6:
+                f_min, f_max = first
+            elif shape == 'nested' and first is not None:
+                f_min = first[0] + rng.randint(0, 10) * 12.5e9
+                f_max = first[1] - rng.randint(0, 10) * 12.5e9
+            first = first or (f_min, f_max)
             o = OMS(oms_id=i, el_id_list=[], el_list=[])
             n_lo, n_hi = frequency_to_n(f_min), frequency_to_n(f_max)
             bm = [G.pick(rng, [FREE, FREE, FREE, OCC, UNU]) for _ in range(n_hi - n_lo + 1)]
@@ -353,7 +396,7 @@ def run_align(case, ctx):
                 ctx.violation('alignment-padding-free', f'map {o.oms_id}: padded slots {pad_free[:4]} are free')
         if len(extents) >= 2:
             ctx.nontrivial(('align', sorted(extents), [sorted(b.items())[:5] for b in before]))
-        ctx.cls('align', f'maps:{k}')
+        ctx.cls('align', f'maps:{k}', f'align-shape:{shape}')
         if not ctx.samples:
             ctx.sample({'kind': 'align', 'extents': sorted(extents), 'aligned_to': [lo, hi]})
 
